@@ -219,6 +219,26 @@ def check_find_range(fx, rep, rule):
     pred = None
     positive = False
     same_pred = {}
+    pred_desc = "no boundary predicate found"
+    # the two linear searches written as cursor loops (`while start > 0 && f(&members[start - 1]).is_eq() { start -= 1 }`): each loop
+    # has a closed form over take_while(..).count() - the second accepted form below - with the loop's test as the predicate
+    import loopsum as LS
+    scans = {}
+    if not cl and sy.loop_order:
+        for key_ in sy.loop_order:
+            r_ = LS.cursor_scan(sy, sy.loops[key_])
+            if r_ is not None and r_["seq"] == ms:
+                scans[r_["placeholder"]] = r_
+    if scans and len(scans) == len(sy.loop_order) and len({r_["pred"] for r_ in scans.values()}) == 1:
+        pbody = list(scans.values())[0]["pred"]
+        pred = ("lambda", 1, pbody)
+        fm = ("bound", 0)
+        pos_forms = (("eq", ("apply", f, (fm,)), ("adt", "Ordering", "Equal", ())), ("eq", ("adt", "Ordering", "Equal", ()), ("apply", f, (fm,))),
+                     ("eq", call("std::ops::Fn::call", f, ("tuple", (fm,))), ("adt", "Ordering", "Equal", ())),
+                     ("eq", ("adt", "Ordering", "Equal", ()), call("std::ops::Fn::call", f, ("tuple", (fm,)))))
+        ok_pred = positive = pbody in pos_forms
+        pred_desc = S.tstr(pbody) + " (loop test of %d cursor loops)" % len(scans)
+        cl = set()
     if len(cl) > 1:
         # the same predicate written out twice (two closure literals): one predicate if their canonical terms are equal
         import models as M0
@@ -244,7 +264,7 @@ def check_find_range(fx, rep, rule):
             pred_desc = S.tstr(t)
         except S.Undecidable as e:
             pred_desc = e.msg
-    else:
+    elif not scans:
         pred_desc = "%d closures" % len(cl)
     rep.check(rule, "%s/find_range/boundary-predicate" % rule, ok_pred, loc=F.short_file(b["sp"]), found="matches_not = |m| %s" % pred_desc,
               expected="|m| f(m) != Equal (with rposition/position) or |m| f(m) == Equal (with take_while(..).count())")
@@ -252,6 +272,8 @@ def check_find_range(fx, rep, rule):
     from_ = call("std::ops::Index::index", ms, ("adt", "RangeFrom", "RangeFrom", (("start", mid),)))
 
     def rw_split(t):
+        if t[0] == "loop" and t in scans and pred is not None:
+            return LS.closed_form(scans[t], pred)
         if t[0] == "closure" and t in same_pred:
             return same_pred[t] if same_pred[t] != t else None
         # `let (before, from_mid) = members.split_at(mid)` names the same two sub-slices as members[..mid] / members[mid..]
